@@ -41,6 +41,22 @@ def gen_seq(r, streak=False):
     return ops
 
 
+def gen_idle_burst(r):
+    """some tokens taken, a long idle period (the bucket is full again long before its end), then a burst of attempts at one instant"""
+    cap = r.choice([1, 2, 3, 5, 10])
+    rate = r.choice([Fraction(1, 10), Fraction(1, 2), Fraction(1), Fraction(3)])
+    t = Fraction(r.choice([0, 1000]))
+    ops = [{"op": "new", "cap": str(cap), "rate": str(rate), "t": str(t)}]
+    for _ in range(r.randrange(0, cap + 1)):
+        ops.append({"op": "try", "t": str(t)})
+    t += r.choice([60, 600, Fraction(cap) / rate + 1])
+    for _ in range(2 * cap + r.randrange(1, 6)):
+        ops.append({"op": "try", "t": str(t)})
+        if r.random() < 0.1:
+            t += Fraction(1, 64)
+    return ops
+
+
 def parse(line):
     parts = line.split(" ")
     d = {"decision": parts[0]}
@@ -120,10 +136,12 @@ def compare(ctx, ops, impl, model):
             ctx.disagree({"ops": ops[:i + 1]}, a, b); return
 
 
-def run_seqs(ctx, seqs):
+def run_seqs(ctx, seqs, real=False):
+    """real=True: every acquire attempt goes through the real Wait() (on a copy of the bucket under the frozen clock) instead of the
+    harness's own refill-then-take; slower (a refused attempt costs a few ms), so used for fewer sequences"""
     lines, idx = [], []
     for ops in seqs:
-        lines += [json.dumps(o) for o in ops]
+        lines += [json.dumps(dict(o, op="tryreal") if (real and o["op"] == "try") else o) for o in ops]
         idx.append(len(lines))
     impl, model = ctx.pair("rl", lines)
     pos = 0
@@ -260,8 +278,11 @@ def run(ctx):
     n = 20000 if ctx.thorough() else 600
     crawl_politeness(ctx, 12 if ctx.thorough() else 2)
     cp = corpus(ctx)
-    seqs = cp + [gen_seq(ctx.rng) for _ in range(n)] + [gen_seq(ctx.rng, streak=True) for _ in range(n // 10)]
+    seqs = cp + [gen_seq(ctx.rng) for _ in range(n)] + [gen_seq(ctx.rng, streak=True) for _ in range(n // 10)] + [gen_idle_burst(ctx.rng) for _ in range(n // 10)]
     run_seqs(ctx, seqs)
+    rs = [gen_idle_burst(ctx.rng) for _ in range(60 if ctx.thorough() else 8)] + [gen_seq(ctx.rng) for _ in range(200 if ctx.thorough() else 12)]
+    run_seqs(ctx, rs, real=True)
+    ctx.count("sequences-through-the-real-Wait", len(rs))
     table(ctx, 2000 if ctx.thorough() else 100)
     waitreal(ctx, 40 if ctx.thorough() else 2)
     firstcontact(ctx, 20 if ctx.thorough() else 2)
